@@ -34,11 +34,14 @@ const EMPTY: Slot = Slot {
 };
 
 const TOMBSTONE: usize = usize::MAX;
-const TABLE_BITS: usize = 17;
+const TABLE_BITS: usize = 19;
 const TABLE_SIZE: usize = 1 << TABLE_BITS;
 
 struct State {
     table: *mut Slot,
+    /// indices of the table slots filled since the run began (`used` of them): the end-of-run
+    /// sweep visits these instead of the whole table
+    touched: *mut u32,
     used: usize,
     overflow: bool,
     live_blocks: i64,
@@ -85,9 +88,11 @@ fn state() -> &'static mut State {
         if s.get().is_null() {
             unsafe {
                 let table = System.alloc_zeroed(Layout::array::<Slot>(TABLE_SIZE).unwrap()) as *mut Slot;
+                let touched = System.alloc_zeroed(Layout::array::<u32>(TABLE_SIZE).unwrap()) as *mut u32;
                 let st = System.alloc(Layout::new::<State>()) as *mut State;
                 st.write(State {
                     table,
+                    touched,
                     used: 0,
                     overflow: false,
                     live_blocks: 0,
@@ -137,6 +142,7 @@ impl State {
             let s = unsafe { &mut *self.table.add(i) };
             if s.addr == 0 {
                 *s = slot;
+                unsafe { *self.touched.add(self.used) = i as u32 };
                 self.used += 1;
                 return true;
             }
@@ -424,7 +430,8 @@ pub fn end_run() -> RunAllocReport {
         errors.push(*e);
     }
     unsafe {
-        for i in 0..TABLE_SIZE {
+        for j in 0..st.used {
+            let i = *st.touched.add(j) as usize;
             let s = &mut *st.table.add(i);
             if s.addr == 0 {
                 continue;
